@@ -1386,4 +1386,86 @@ Section Main.
           rewrite Hsr. clear Hsr SR.
           unfold after_f, refines. cbn [expected_gout]. left. reflexivity.
   Qed.
+
+  Lemma find_map_entry (f : mkey * wval -> bool) kvs :
+    find f (map entry_of kvs) = option_map entry_of (find (fun kx => f (entry_of kx)) kvs).
+  Proof. induction kvs as [|kx kvs IH]; [reflexivity|]. cbn [map find]. destruct (f (entry_of kx)); [reflexivity|exact IH]. Qed.
+
+  Lemma find_ext {A} (f g : A -> bool) l : (forall x, f x = g x) -> find f l = find g l.
+  Proof. intros H. induction l as [|a l IH]; [reflexivity|]. cbn [find]. rewrite H, IH. reflexivity. Qed.
+
+  Lemma assoc_key_find {B} k (kvs : list (mkey * B)) :
+    assoc_key (KStr k) kvs = option_map snd (find (fun kx => match_str k (fst kx)) kvs).
+  Proof.
+    induction kvs as [|[m x] kvs IH]; [reflexivity|]. cbn [assoc_key find fst].
+    destruct m as [kk v|b]; cbn [mkey_eqb match_str]; [exact IH|]. destruct (bytes_eqb b k); [reflexivity|exact IH].
+  Qed.
+
+  (* ---- a map field: key steps *)
+  Lemma P_val_map s p' buf pre kk t num v w0 ws w2 :
+    (p' <> [] -> P_msg p') -> path_okb (s :: p') = true ->
+    wf_fld S (LMap kk) t v = true -> 1 <= num <= MAX_FIELD_NUMBER -> (kk =? 9) || kind_is_int kk = true ->
+    fvals v = w0 :: ws -> inert num w2 -> buf = pre ++ wenc (wfld num v) ++ wenc w2 -> plen buf < 9223372036854775808 ->
+    refines (plookup S (LMap kk) t num v (s :: p'))
+            (gbp_loop all_fixes S buf (s :: p') (plen pre + plen (tagb num (wt_of_wval w0))) false (LMap kk) t num).
+  Proof.
+    intros IH Hp Hwf Hn Hkk Ef Hin Eb Hlen. destruct (path_okb_tail _ _ Hp) as [Hs Hp'].
+    destruct v as [| | | |kvs]; try (cbn [wf_fld] in Hwf; discriminate).
+    destruct (wf_map_facts _ _ _ _ num Hwf) as [Hne [Ew Hall]].
+    destruct kvs as [|kx0 kvs']; [contradiction|].
+    cbn [fvals map] in Ef. inversion Ef; subst w0 ws. clear Ef. unfold entry_wval at 1. cbn [wt_of_wval].
+    rewrite Ew in Eb. cbn [map] in Eb.
+    set (e0 := entry_of kx0) in *. set (r := map entry_of kvs') in *. set (tg := tagb num 2).
+    assert (Eb2 : buf = (pre ++ tg) ++ evalb e0 ++ wenc (map (erec num) r) ++ wenc w2).
+    { rewrite Eb, wenc_cons, erec_enc. fold tg. repeat rewrite <- app_assoc. reflexivity. }
+    rewrite <- plen_app.
+    assert (Hrl : (length r <= length buf)%nat).
+    { rewrite Eb2, !app_length. pose proof (wenc_length_ge (map (erec num) r)). rewrite map_length in H. lia. }
+    assert (Hents : forall a, In a (e0 :: r) -> In (fst a) (map fst (e0 :: r)) /\ wf_entry a = true).
+    { intros a Ha. split; [apply in_map; exact Ha|].
+      change (e0 :: r) with (map entry_of (kx0 :: kvs')) in Ha. apply in_map_iff in Ha. destruct Ha as [kx [<- Hkx]].
+      rewrite Forall_forall in Hall. apply (Hall kx Hkx). }
+    assert (Hkeys : Forall (fun key => key_okb kk key = true) (map fst (e0 :: r))).
+    { apply Forall_forall. intros key Hk. apply in_map_iff in Hk. destruct Hk as [a [<- Ha]].
+      change (e0 :: r) with (map entry_of (kx0 :: kvs')) in Ha. apply in_map_iff in Ha. destruct Ha as [kx [<- Hkx]].
+      rewrite Forall_forall in Hall. apply (Hall kx Hkx). }
+    (* the common part: a scan whose matcher agrees with the spec's choice *)
+    assert (Hscan : forall rdkey matchb,
+      rdkey_ok buf rdkey matchb (map fst (e0 :: r)) ->
+      refines (match find (fun kx => matchb (fst kx)) (kx0 :: kvs') with
+               | Some kx => plookup S LSingular t num (snd kx) p'
+               | None => LNotFound (is_nil p') end)
+              (after_f S p' buf (search_key (Datatypes.S (length buf)) buf rdkey (plen (pre ++ tg)) num) LSingular t 0 (kind_of_type t))).
+    { intros rdkey matchb Hrd.
+      replace (Datatypes.S (length buf)) with (Datatypes.S (length r) + (length buf - length r))%nat by lia.
+      rewrite (sk_run r buf rdkey matchb _ (pre ++ tg) e0 w2 _ num Hrd Hn Hents Hin Eb2).
+      pose proof (sk_expect_spec matchb num r e0 (pre ++ tg) w2 buf Eb2) as Hspec.
+      change (e0 :: r) with (map entry_of (kx0 :: kvs')) in Hspec. rewrite find_map_entry in Hspec.
+      assert (Efe : forall kx, matchb (fst (entry_of kx)) = matchb (fst kx)) by (intros; reflexivity).
+      rewrite (find_ext _ (fun kx => matchb (fst kx)) _ Efe) in Hspec.
+      change (map entry_of (kx0 :: kvs')) with (e0 :: r) in Hspec.
+      destruct (find (fun kx => matchb (fst kx)) (kx0 :: kvs')) as [kx|] eqn:Efind; cbn [option_map] in Hspec.
+      - destruct Hspec as [preK [restK [Hsk EbK]]]. rewrite Hsk. apply find_some in Efind. destruct Efind as [Hkin _].
+        rewrite Forall_forall in Hall. destruct (Hall kx Hkin) as [_ [Hx _]]. cbn [entry_of snd] in EbK.
+        apply (after_elem p' buf preK 2 (snd kx) restK t LSingular 0 num _ IH Hp' Hx); [unfold MAX_FIELD_NUMBER; lia|reflexivity|left; reflexivity|exact EbK|exact Hlen].
+      - rewrite Hspec. unfold after_f, refines. cbn [expected_gout]. left. reflexivity. }
+    destruct s as [| | |k|i]; try (unfold refines; cbn [plookup expected_gout]; exact I).
+    - (* string key *)
+      cbn [plookup]. destruct (Z.eqb_spec kk 9) as [->|Hk9]; [|unfold refines; cbn [expected_gout]; exact I].
+      rewrite gbp_strkey_unfold. rewrite assoc_key_find.
+      pose proof (Hscan _ (match_str k) (rdkey_str_ok buf k _ Hkeys)) as H.
+      destruct (find (fun kx => match_str k (fst kx)) (kx0 :: kvs')) as [kx|]; cbn [option_map]; exact H.
+    - (* integer key *)
+      cbn [plookup]. destruct (Z.eqb_spec kk 9) as [->|Hk9]; [unfold refines; cbn [expected_gout]; exact I|].
+      assert (Hki : kind_is_int kk = true).
+      { apply orb_true_iff in Hkk. destruct Hkk as [E|E]; [discriminate E|exact E]. }
+      rewrite gbp_intkey_unfold.
+      assert (Hi : to_s 64 i = i).
+      { cbn [step_okb] in Hs. apply andb_true_iff in Hs as [H1 H2]. apply Z.leb_le in H1. apply Z.ltb_lt in H2.
+        change (2 ^ 63) with 9223372036854775808 in *. apply to_s64_id. lia. }
+      assert (Efk : forall kx : mkey * pval, key_matches i (fst kx) = match_int i (fst kx)).
+      { intros [[k' v'|b] x]; cbn [fst key_matches match_int]; [rewrite Hi; reflexivity|reflexivity]. }
+      rewrite (find_ext _ (fun kx => match_int i (fst kx)) _ Efk).
+      exact (Hscan _ (match_int i) (rdkey_int_ok buf kk i _ Hki Hkeys)).
+  Qed.
 End Main.
